@@ -15,8 +15,8 @@ import lena.flow
 import lena.flow.cache as cache_mod
 import lena.meta
 
-from ..kernel import RunResult, Boom, summarize
-from ..seams.fs import SimFS, SimOS, SimGlob, ProcessCrash
+from ..kernel import RunResult, Boom, summarize, HarnessError
+from ..seams.fs import SimFS, SimOS, SimGlob, SimTempfile, ProcessCrash
 from ..seams.flow import SimSource, ProbeCall, ProbeRun, ProbeFC
 
 PROPERTY = "C18"
@@ -130,6 +130,9 @@ def install(fs):
     if hasattr(cache_mod, "glob"):
         # not imported by lena today; a Cache that looks around with glob sees the simulated tree
         cache_mod.glob = SimGlob(fs)
+    if hasattr(cache_mod, "tempfile"):
+        # the same for a Cache that makes its temporary file with the tempfile module
+        cache_mod.tempfile = SimTempfile(fs, cache_mod.os)
     # process-global counters of the module (used for unique temporary file names) start afresh
     # for every simulated history, whatever they are called: a run is a function of its tape only
     for name, val in list(vars(cache_mod).items()):
@@ -548,6 +551,8 @@ def run(tape):
                         continue
                     try:
                         g.close()
+                    except HarnessError:
+                        raise
                     except Exception as e:  # noqa: BLE001
                         log.ev("raise", "release", type(e).__name__)
                 shared["held"] = []
@@ -687,6 +692,8 @@ def rerun_hoisted(sc, hpl, r, allowed, res, log, fs):
         for v in hpl.hoisted_seq():
             out.append(v)
             log.ev("out", len(out) - 1, summarize(v))
+    except HarnessError:
+        raise
     except Exception as e:  # noqa: BLE001
         exc = type(e).__name__
         log.ev("raise", "rerun-hoisted", exc)
@@ -728,6 +735,8 @@ def finish_held(sc, g, fin, allowed, res, log):
         for v in g:
             rest.append(copy.deepcopy(v) if getattr(sc, "shared_ctx", False) else v)
             log.ev("out", k + len(rest) - 1, summarize(v))
+    except HarnessError:
+        raise
     except Exception as e:  # noqa: BLE001
         log.ev("raise", "finish-held", type(e).__name__, repr(e)[:200])
         res.viol("C18:Cache:resumed-run:raises-%s" % type(e).__name__,
@@ -831,6 +840,8 @@ def execute_run(sc, op, log, r, res, fs, shared=None):
             res.fault("raise-upstream-element")
     except ProcessCrash:
         exc = "ProcessCrash"
+    except HarnessError:
+        raise
     except Exception as e:  # noqa: BLE001
         exc = type(e).__name__
         log.ev("raise", "pipeline", exc, repr(e)[:200])
